@@ -392,7 +392,10 @@ def rule_validate(chk, prog):
 PARAM_GUARDS = {
     # (module, function): names that must occur in the test of a raising guard of that function
     (PL, "NLDFAuxiliaryPlan.__init__"): ["nldf_settings", "alpha0", "lambd", "nalpha", "alpha_formula", "coef_order",
-                                         "nspin", "rhocut", "expcut"],
+                                         "nspin", "rhocut", "expcut",
+                                         # a&b: one rejecting test (with its enclosing ifs) mentions both names --
+                                         # expcut must be positive when the zexp grid starts at it (b1c72ba)
+                                         "alpha_formula&expcut"],
     (ST, "NLDFSettings.__init__"): ["sl_level", "rho_mult"],
     (ST, "NLDFSettingsVK.__init__"): ["rho_damp"],
     (ST, "NLDFSettingsVJ.__init__"): ["feat_params"],
@@ -457,6 +460,25 @@ def rule_param_guards(chk, prog):
         for name in names:
             inst = "%s:%s rejects invalid %s" % (rel, qual, name)
             hit = False
+            if "&" in name:
+                want = set(name.split("&"))
+                for st in ast.walk(fn):
+                    rejecting = isinstance(st, ast.Assert) or (isinstance(st, ast.If) and cfgm._raises(st.body))
+                    if not rejecting:
+                        continue
+                    exprs = [st.test] + [t_ for t_, _, kind in cfgm.conditions_at(st) if kind == "enclosing"]
+                    seen_ = {x.id for e_ in exprs for x in ast.walk(e_) if isinstance(x, ast.Name)} | \
+                        {x.attr for e_ in exprs for x in ast.walk(e_) if isinstance(x, ast.Attribute)}
+                    if want <= seen_:
+                        hit = True
+                if hit:
+                    chk.ok("param-guards", inst)
+                else:
+                    chk.violation("param-guards", rel, qual, "guard on %s" % name, fn.lineno,
+                                  "on the pinned tree %s had a rejecting test that involves %s together (e.g. expcut must be "
+                                  "positive when alpha_formula is 'zexp': the first interpolation exponent is expcut); no "
+                                  "such guard remains" % (qual, " and ".join(sorted(want))), instance=inst)
+                continue
             for t in tests:
                 if not name.isidentifier():
                     hit = hit or name.replace(" ", "") in pf.src(t).replace(" ", "")
@@ -2584,6 +2606,8 @@ def mutants(tree):
         Mutant("noncontig: attribute holds an inner-axis slice", "ciderpress/dft/lcao_interpolation.py",
                "            self._gaunt_coeff = get_deriv_ylm_coeff(self.lmax)",
                "            self._gaunt_coeff = get_deriv_ylm_coeff(self.lmax + 1)[:, : (self.lmax + 1) ** 2]", expect="noncontig"),
+        Mutant("param: zexp grid accepts expcut = 0", PL,
+               "        if alpha_formula == \"zexp\" and not expcut > 0:\n", "        if False:\n", expect="param-guards"),
         # ---- rules of round 13
         Mutant("dispatch: allowed set degenerates to a plain string", ST, 'ALLOWED_RHO_DAMPS = ["exponential"]',
                'ALLOWED_RHO_DAMPS = ("exponential")', expect="dispatch"),
